@@ -2,7 +2,7 @@
    Statements only.  [veval] is the executable model of the code (what each operation hands to the
    constructor + the `valid` setter's normalisation, with rejections); [sem] is the plain reading of
    the property (operand masks, cell-wise AND, gathers).  Masks have arbitrary shapes and sizes. *)
-From DF Require Import Prelude NDArray Valid C08_arrays C08_valid.
+From DF Require Import Prelude NDArray Valid C08_arrays C08_valid C08_maps.
 Open Scope nat_scope.
 
 (* --- unary operations (neg, abs, component, norm, orientation, complex parts, diff, scalar
@@ -73,6 +73,19 @@ Theorem C08_mapped : forall env m e i,
   end.
 Proof. exact sem_map_pointwise. Qed.
 Print Assumptions C08_mapped.
+
+(* cells map to cells: the source index of every result cell lies inside the operand's mesh
+   (all pad modes incl. widths beyond the array length, all quarter turns, nearest-cell resampling) *)
+Theorem C08_mapped_cells_to_cells : forall m sh i j,
+  map_ok m sh = true -> inb (map_shape m sh) i = true -> map_idx m sh i = Some j -> inb sh j = true.
+Proof. exact map_idx_in_range. Qed.
+Print Assumptions C08_mapped_cells_to_cells.
+
+Example C08_mapped_nonvacuous :
+  map_ok (MPad PReflect 1 5 2 false) [2; 3] = true /\
+  inb (map_shape (MPad PReflect 1 5 2 false) [2; 3]) [1; 0] = true /\
+  map_idx (MPad PReflect 1 5 2 false) [2; 3] [1; 0] = Some [1; 1].
+Proof. repeat split; reflexivity. Qed.
 
 (* the gather is the same for every cell-wise payload (values, validity) *)
 Theorem C08_mapped_same_for_data_and_validity : forall (A B : Type) (g : A -> B) m sh fill (src : idx -> A) i,
